@@ -23,7 +23,7 @@ func c14(c *q.Ctx) {
 		c.Gate(cp, "CBFTCrypto.VerifyVoteMsgSign|VerifyVoteMsgSign", q.ToSuccess(), q.Opt{K1Only: true})
 		c.ArgIs(cp, "VerifyVoteMsgSign", 1, entry, 1, "the entry whose membership was tested")
 		c.ArgIs(cp, "VerifyVoteMsgSign", 2, "i:QuorumCertInterface.GetProposalId(p2)", 1, "signatures are over the certified (parent) proposal id")
-		c.MapDedup(cp, entry+".Address", inc, "a validator's repeated signature is counted once")
+		c.MapDedup(cp, entry+".Address", inc, "a validator's repeated signature is counted once", "(#i < len(i:QuorumCertInterface.GetSignsInfo(p2)))")
 		c.Guard(cp, q.Cond{Canon: "chained_bft.(*DefaultSaftyRules).CalVotesThreshold(p0,phi{*(1 + loop)*},len(p3))", Sense: false}, q.ToSuccess(), q.Opt{})
 		c.Gate(cp, "DefaultSaftyRules.CalVotesThreshold", q.ToSuccess(), q.Opt{Unless: []q.Cond{{Canon: "(i:QuorumCertInterface.GetProposalView(p1) < (p0.lastVoteRound - 3))", Sense: true}}})
 		c.Guard(cp, q.Cond{Canon: "(nil == p3)", Sense: true}, q.ToSuccess(), q.Opt{})
